@@ -67,9 +67,13 @@ Proof.
     + destruct (sl_wrote w) eqn:Ew.
       * cbn. constructor; cbn; auto; congruence.
       * destruct (H4 eq_refl) as [Hc Hb]. cbn [fst snd base_run fold_left].
-        destruct (head_commits b 413 Hc eq_refl) as [A B].
+        set (b1 := base_step b (CDel H_CL)).
+        assert (Hc1 : b_commit b1 = None) by (subst b1; cbn; exact Hc).
+        assert (Hb1 : b_body b1 = b_body b) by reflexivity.
+        destruct (head_commits b1 413 Hc1 eq_refl) as [A B].
+        destruct (flush_committed (base_step b1 (CHead 413)) _ _ A) as [A2 B2].
         constructor; cbn [sl_written sl_limit sl_status sl_wrote]; auto;
-          try (rewrite B; exact H1); try (intros _; eexists; exact A); try discriminate.
+          try (rewrite B2, B, Hb1; exact H1); try (intros _; eexists; exact A2); try discriminate.
     + unfold sl_ensure. destruct (sl_wrote w) eqn:Ew.
       * destruct (H3 eq_refl) as [h Hc]. cbn [fst snd app base_run fold_left].
         destruct (write_committed b _ _ p Hc) as [A B].
@@ -156,7 +160,7 @@ Qed.
    has not sent its header yet sends 413, and nothing after it is forwarded *)
 Lemma sl_413 w p :
   sl_wrote w = false -> sl_reached w = false -> sl_limit w < sl_written w + payload_len p ->
-  snd (sl_step w (CWrite p)) = [CHead 413] /\ sl_reached (fst (sl_step w (CWrite p))) = true.
+  snd (sl_step w (CWrite p)) = [CDel H_CL; CHead 413; CFlush] /\ sl_reached (fst (sl_step w (CWrite p))) = true.
 Proof.
   intros Hw Hr Hl. cbn [sl_step]. rewrite Hr. assert (E : (sl_limit w <? sl_written w + payload_len p) = true) by lia.
   rewrite E, Hw. cbn. auto.
